@@ -1,4 +1,6 @@
 """K2 (server / background side): P8, P9, P10, P11, P12, P15 and W3."""
+import re
+
 from asyncx import *
 from common import *
 from engine import RuleResult
@@ -69,7 +71,7 @@ def p10_accept_loop(ctx):
     o = peel_var(fo)
     if o[0] == "call" and o[1] and o[1].split("::")[-1] in ("unwrap", "expect"):
         fut = awaited(o[2][0])
-    good = fut is not None and is_call_origin(fut, "Semaphore::acquire") and (access_path(fut[2][0]) or "").endswith("limit_connections")
+    good = fut is not None and is_call_origin(fut, "Semaphore::acquire") and bool(re.search(r"(^|\.)limit_connections(\.[A-Za-z0-9_]+)?$", access_path(fut[2][0]) or ""))  # also behind a newtype: self.limit_connections.0
     r.add(f, "forget(permit acquired from self.limit_connections)", good, where(b, fbb), origin_str(fo))
     # per iteration: forget precedes accept
     blocked = lambda e: e.kind == "unwind" or (e.src == fbb and e.kind == "ret")
